@@ -17,13 +17,23 @@ ASSUMPTIONS = [
     "the Triangle flag of access patterns is not modelled",
 ]
 
+GOL = "cd tools/gol && go run . -repo /repo -out ../../lean/TensorModel/Generated/Core.lean"
+GOL_TRUST = ("tools/gol (Go -> Lean do-notation, statement by statement; functions outside its subset are not emitted) and "
+             "lean/TensorModel/GoLib.lean (meaning of the Go primitives: int = unbounded Int, slices = lists with value semantics "
+             "(aliasing-checked), index / slice / division panics, error values); the regenerated definitions are proved equal to "
+             "the model functions in Proofs/CoreEq.lean")
+
 PROPS = {
     "C01": {
         "lean_modules": ["C01"],
+        "pre_cmds": [GOL],
+        "trusted_extra": [GOL_TRUST],
         "rule": "programs = element type x constructor {row-major, column-major over raw backing, column-major converting} x shape (rank 0-3 quick / 0-4 thorough, dims incl. length-one axes) x layout {as built, lazily transposed, physically transposed, sliced}; every coordinate of the box [-2,d+1]^rank is read (atbox), wrong arities, one in-range and one near-miss write followed by full dumps of parent and view; distinct = distinct (op sequence, shape, strides, order flags, view/old flags) tuples observed in dumps",
     },
     "C02": {
         "lean_modules": ["C02"],
+        "pre_cmds": [GOL],
+        "trusted_extra": [GOL_TRUST],
         "rule": "rank-1: complete per-axis argument space (nil, indices -1..d, all triples s in [-1,d], e in [s-1,d+2], st in [0,d+1]) x 3 constructors; rank-2: cross product of the per-axis spaces (sampled 1/9 in quick, complete in thorough) incl. transposed sources and short slice lists; rank 3-4 and nested slicing to depth 3: seeded sampling; distinct = distinct (op sequence, result shape, strides, flags)",
     },
     "C03": {
@@ -76,6 +86,8 @@ PROPS = {
     },
     "C16": {
         "lean_modules": ["C16"],
+        "pre_cmds": [GOL],
+        "trusted_extra": [GOL_TRUST],
         "rule": "the programs of the C01, C02, C03, C04, C05 and C13 generators that build a column-major tensor (both constructors: column-major over the raw backing, converting a row-major sequence) + the arithmetic / comparison / min-max / unary matrices with every operand and the reuse / incr destination drawn independently from {column-major raw, column-major converting, lazily transposed column-major, row-major contiguous, lazily transposed, sliced}, at least one operand column-major; results are compared with the specification on logical contents (= the row-major run)",
     },
     "C17": {
